@@ -125,18 +125,31 @@ func clip(s string) string {
 }
 
 type collector struct {
-	mu    sync.Mutex
-	count int64
-	list  []mismatch
+	mu     sync.Mutex
+	count  int64
+	list   []mismatch
+	byStmt map[int]int // statement index -> number of mismatches
 }
 
 func (c *collector) add(idx int, sql, what, exp, got string) {
 	c.mu.Lock()
 	defer c.mu.Unlock()
 	c.count++
+	if c.byStmt == nil {
+		c.byStmt = map[int]int{}
+	}
+	c.byStmt[idx]++
 	if len(c.list) < 25 {
 		c.list = append(c.list, mismatch{idx, sql, what, clip(exp), clip(got)})
 	}
+}
+
+func (c *collector) byStatement() map[string]int {
+	out := map[string]int{}
+	for k, v := range c.byStmt {
+		out[strconv.Itoa(k)] = v
+	}
+	return out
 }
 
 func (c *collector) diff(idx int, sql, ctx string, exp, got result) {
@@ -335,12 +348,16 @@ type report struct {
 	Calls         int64          `json:"calls"`
 	Counts        map[string]int `json:"counts,omitempty"`
 	MismatchCount int64          `json:"mismatch_count"`
+	ByStatement   map[string]int `json:"mismatches_by_statement"` // statement index (0-based line of the input) -> count
 	Mismatches    []mismatch     `json:"mismatches"`
 }
 
 func emit(r report) {
 	if r.Mismatches == nil {
 		r.Mismatches = []mismatch{}
+	}
+	if r.ByStatement == nil {
+		r.ByStatement = map[string]int{}
 	}
 	b, _ := json.Marshal(r)
 	fmt.Println(string(b))
@@ -437,7 +454,7 @@ func main() {
 			}
 		}
 		emit(report{Phase: *phase, Statements: len(sqls), Goroutines: *n, Rounds: *rounds, Calls: calls,
-			Counts: counts, MismatchCount: col.count, Mismatches: col.list})
+			Counts: counts, MismatchCount: col.count, ByStatement: col.byStatement(), Mismatches: col.list})
 
 	case "D":
 		phaseD(sqls, baseline, counts, *panicsFile, *histories, *fresh)
@@ -621,7 +638,8 @@ func phaseD(sqls []string, baseline []result, counts map[string]int, panicsFile 
 	}
 	counts["histories"] = histories
 
-	emit(report{Phase: "D", Statements: len(sqls), Calls: calls, Counts: counts, MismatchCount: col.count, Mismatches: col.list})
+	emit(report{Phase: "D", Statements: len(sqls), Calls: calls, Counts: counts, MismatchCount: col.count,
+		ByStatement: col.byStatement(), Mismatches: col.list})
 }
 
 var selectQueryType = reflect.TypeOf(ast.SelectQuery{})
